@@ -1,25 +1,348 @@
-//! C05 — not built yet (stub).
+//! C05 — concurrent writer handles are serializable.
+//!
+//! Per case: 2–4 writer threads (own `IndexWriter` each) plus an optional compaction thread run
+//! generated call lists on one index under the controlled scheduler of `sched.rs`.
+//!  * monitor (correspondence): the recorded trace satisfies `SL.Sched.sectionsDisjoint` and
+//!    `fits` (evaluated by the Lean driver) — the hypothesis of `trace_serializable`;
+//!  * correspondence: every call's result and the final contents equal the Lean model's
+//!    `runSerial` over the calls in recorded `enter` order (filesystem backend);
+//!  * finder (implementation alone): results and final contents equal a serial re-execution of
+//!    the same calls in `enter` order on a fresh index with the real code, the index reopens
+//!    from disk with the same contents, no call panics, no dead-lock.
+use crate::idx;
 use crate::proto::Driver;
 use crate::rng::Rng;
 use crate::summary::Summary;
+use crate::util::{guarded, scratch};
 use crate::{Prop, Tier};
+use searchlite_core::api::writer::IndexWriter;
+use searchlite_core::api::Index;
 use serde_json::{json, Value};
+use std::collections::BTreeMap;
+use std::sync::Arc;
 
-pub struct Stub;
-pub static P: Stub = Stub;
+#[allow(dead_code)]
+#[path = "../sched.rs"]
+pub mod sched;
+use sched::{Strategy, Timing};
 
-impl Prop for Stub {
+pub struct C05;
+pub static P: C05 = C05;
+
+pub const IDS: [&str; 5] = ["a", "b", "c", "d", "e"];
+
+pub fn schema_json() -> Value {
+  json!({"doc_id_field": "_id", "analyzers": [], "text_fields": [{"name": "body", "analyzer": "default", "stored": true, "indexed": true}], "keyword_fields": [], "numeric_fields": [], "nested_fields": []})
+}
+
+/// result of one call in the model's encoding: "ok" | {"count": n} | "err" (| {"panic": …})
+pub fn exec_call(index: &Index, writer: &mut Option<IndexWriter>, call: &Value) -> Value {
+  let r = guarded(|| -> Result<Value, String> {
+    match call["op"].as_str().unwrap_or("") {
+      "new" => {
+        // the old handle (if any) is dropped first, as `w = idx.writer()` would do after the call;
+        // dropping only syncs the log
+        let w = index.writer().map_err(|e| e.to_string())?;
+        *writer = Some(w);
+        Ok(json!("ok"))
+      }
+      "add" => {
+        let w = writer.as_mut().ok_or("no handle")?;
+        let d = if call["valid"].as_bool().unwrap_or(true) { json!({"_id": call["id"], "body": call["body"]}) } else { json!({"body": call["body"]}) };
+        w.add_document(&idx::doc(&d)).map(|n| json!({"count": n})).map_err(|e| e.to_string())
+      }
+      "delete" => {
+        let w = writer.as_mut().ok_or("no handle")?;
+        let ids: Vec<String> = call["ids"].as_array().map(|a| a.iter().filter_map(|x| x.as_str().map(|s| s.to_string())).collect()).unwrap_or_default();
+        w.delete_documents(&ids).map(|_| json!("ok")).map_err(|e| e.to_string())
+      }
+      "commit" => writer.as_mut().ok_or("no handle")?.commit().map(|_| json!("ok")).map_err(|e| e.to_string()),
+      "rollback" => writer.as_mut().ok_or("no handle")?.rollback().map(|_| json!("ok")).map_err(|e| e.to_string()),
+      "compact" => index.compact().map(|_| json!("ok")).map_err(|e| e.to_string()),
+      o => Err(format!("unknown op {o}")),
+    }
+  });
+  match r {
+    Ok(Ok(v)) => v,
+    Ok(Err(e)) => json!({"err": e}),
+    Err(p) => json!({"panic": p}),
+  }
+}
+
+/// drop error texts (they contain paths): {"err": msg} → "err"
+pub fn canon(v: &Value) -> Value {
+  if v.get("err").is_some() {
+    json!("err")
+  } else {
+    v.clone()
+  }
+}
+
+pub fn contents(index: &Index) -> Result<BTreeMap<String, String>, String> {
+  let live = idx::live(index)?;
+  Ok(live.into_iter().map(|(k, v)| (k, v["body"].as_str().unwrap_or("?").to_string())).collect())
+}
+
+pub fn prefill(index: &Index, case: &Value) -> Result<(), String> {
+  for batch in case["prefill"].as_array().cloned().unwrap_or_default() {
+    let docs: Vec<Value> = batch.as_array().cloned().unwrap_or_default();
+    idx::add_commit(index, &docs)?;
+  }
+  Ok(())
+}
+
+fn gen_calls(rng: &mut Rng, t: usize, len: usize, ver: &mut usize) -> Vec<Value> {
+  let mut calls = vec![json!({"op": "new"})];
+  let mut queued = 0;
+  for k in 0..len {
+    let last = k + 1 == len;
+    let r = rng.below(100);
+    let c = if last && queued > 0 && r < 70 {
+      json!({"op": "commit"})
+    } else if r < 42 {
+      *ver += 1;
+      queued += 1;
+      json!({"op": "add", "id": *rng.pick(&IDS), "body": format!("t{t}v{}", *ver), "valid": true})
+    } else if r < 47 {
+      json!({"op": "add", "id": "", "body": "bad", "valid": false})
+    } else if r < 65 {
+      queued += 1;
+      let n = 1 + rng.below(2);
+      let ids: Vec<&str> = (0..n).map(|_| *rng.pick(&IDS)).collect();
+      json!({"op": "delete", "ids": ids})
+    } else if r < 88 {
+      queued = 0;
+      json!({"op": "commit"})
+    } else if r < 95 {
+      queued = 0;
+      json!({"op": "rollback"})
+    } else {
+      queued = 0;
+      json!({"op": "new"})
+    };
+    calls.push(c);
+  }
+  calls
+}
+
+impl Prop for C05 {
   fn id(&self) -> &'static str {
     "C05"
   }
   fn rule(&self) -> &'static str {
-    "stub"
+    "case = (prefill of two commits, 2-4 writer threads with own handles running new/add/delete/commit/rollback lists over 5 ids, optional compaction thread, storage backend, schedule = round-robin | random | PCT priorities with 1-3 change points | one thread runs whole calls); every instrumented point (call begin, section enter, commit/compact stages, section exit) is a scheduling decision; non-trivial = the recorded enter order interleaves calls of at least two threads AND at least one thread was granted while another thread held the writer lock (real contention) AND at least one non-empty commit ran; distinct = distinct case JSON"
   }
-  fn count(&self, _tier: Tier) -> usize {
-    0
+  fn count(&self, tier: Tier) -> usize {
+    tier.pick(110, 1200)
   }
-  fn gen(&self, _rng: &mut Rng, _tier: Tier, _i: usize) -> Value {
-    json!(null)
+  fn serial(&self) -> bool {
+    true
   }
-  fn run_case(&self, _drv: &mut Driver, _case: &Value, _s: &mut Summary) {}
+  fn gen(&self, rng: &mut Rng, tier: Tier, i: usize) -> Value {
+    let nthreads = 2 + rng.below(3);
+    let mut ver = 0usize;
+    let maxlen = tier.pick(5, 8);
+    let mut threads: Vec<Value> = Vec::new();
+    for t in 0..nthreads {
+      let len = 2 + rng.below(maxlen - 1);
+      threads.push(json!(gen_calls(rng, t, len, &mut ver)));
+    }
+    let compactor = rng.chance(1, 2);
+    if compactor {
+      let n = 1 + rng.below(2);
+      threads.push(json!((0..n).map(|_| json!({"op": "compact"})).collect::<Vec<_>>()));
+    }
+    let pre1: Vec<Value> = IDS.iter().take(3).map(|id| json!({"_id": id, "body": format!("p{id}")})).collect();
+    let pre2: Vec<Value> = IDS.iter().skip(2).take(2).map(|id| json!({"_id": id, "body": format!("q{id}")})).collect();
+    let total_calls: usize = threads.iter().map(|t| t.as_array().map(|a| a.len()).unwrap_or(0)).sum();
+    let est_steps = total_calls * 4;
+    let sched = match i % 4 {
+      0 => json!({"kind": "rr", "seed": rng.below(8)}),
+      1 => json!({"kind": "random", "seed": rng.next() >> 12}),
+      _ => {
+        let d = 1 + rng.below(3);
+        let changes: Vec<usize> = (0..d).map(|_| rng.below(est_steps.max(1))).collect();
+        json!({"kind": "pct", "seed": rng.next() >> 12, "changes": changes})
+      }
+    };
+    json!({"mem": rng.chance(1, 6), "prefill": [pre1, pre2], "threads": threads, "sched": sched})
+  }
+
+  fn run_case(&self, drv: &mut Driver, case: &Value, s: &mut Summary) {
+    let mem = case["mem"].as_bool().unwrap_or(false);
+    let threads: Vec<Vec<Value>> = case["threads"].as_array().map(|a| a.iter().map(|t| t.as_array().cloned().unwrap_or_default()).collect()).unwrap_or_default();
+    let n = threads.len();
+    if n == 0 {
+      return;
+    }
+    // ---- concurrent run ----
+    let dir = scratch();
+    let index = match idx::create(dir.path(), &schema_json(), mem) {
+      Ok(i) => Arc::new(i),
+      Err(e) => {
+        s.fail("setup.create", "index creation failed", case, json!(e));
+        return;
+      }
+    };
+    if let Err(e) = prefill(&index, case) {
+      s.fail("setup.prefill", "prefill failed", case, json!(e));
+      return;
+    }
+    let before = contents(&index).unwrap_or_default();
+    let bodies: Vec<sched::Body> = threads
+      .iter()
+      .cloned()
+      .map(|calls| {
+        let index = index.clone();
+        let b: sched::Body = Box::new(move |ctx: &sched::Ctx| {
+          let mut w: Option<IndexWriter> = None;
+          let mut out = Vec::new();
+          for (k, c) in calls.iter().enumerate() {
+            ctx.begin(k, true, false);
+            out.push(exec_call(&index, &mut w, c));
+            ctx.end(k);
+          }
+          out
+        });
+        b
+      })
+      .collect();
+    let strategy = Strategy::from_json(&case["sched"], n);
+    let run = sched::run(dir.path(), strategy, Timing::default(), Box::new(|_t, _k, _n| true), None, bodies);
+    s.count(&format!("sched_{}", case["sched"]["kind"].as_str().unwrap_or("rr")));
+    s.count(if mem { "backend_memory" } else { "backend_filesystem" });
+    s.count(&format!("threads_{n}"));
+    s.add("scheduling_decisions", run.steps as u64);
+    s.add("grants_blocked_on_held_lock", run.blocked_predicted as u64);
+    s.add("deadline_missed_unpredicted", run.blocked_unpredicted as u64);
+    s.add("trace_events", run.trace.len() as u64);
+    if run.stuck {
+      s.case(case, false);
+      s.fail("sched.deadlock", "threads never reached their next point (dead-lock)", case, json!({"trace": run.trace.iter().map(|e| e.to_json()).collect::<Vec<_>>()}));
+      return;
+    }
+    let results: Vec<Vec<Value>> = run.results.iter().map(|r| r.clone().unwrap_or_default()).collect();
+    let order = sched::enter_order(&run.trace, n);
+    let switches = order.windows(2).filter(|w| w[0].0 != w[1].0).count();
+    let nonempty_commit = run.trace.iter().any(|e| e.name == "commit.after_publish");
+    s.case(case, switches >= 2 && run.blocked_predicted >= 1 && nonempty_commit);
+    for t in 0..n {
+      for (k, r) in results[t].iter().enumerate() {
+        if r.get("panic").is_some() {
+          s.fail("call.panic", "a writer call panicked", case, json!({"thread": t, "call": k, "panic": r["panic"]}));
+        }
+        s.count(&format!("result_{}", if r.get("err").is_some() { "err" } else if r.get("panic").is_some() { "panic" } else { "ok" }));
+      }
+    }
+    // trace shape: the k-th enter of a thread must be the section of its k-th call
+    let total_calls: usize = threads.iter().map(|t| t.len()).sum();
+    let mut shape_ok = order.len() == total_calls;
+    for (i, (t, k)) in order.iter().enumerate() {
+      let want = match threads[*t].get(*k).and_then(|c| c["op"].as_str()) {
+        Some("new") => "writer.new",
+        Some(o) => o,
+        None => "?",
+      };
+      let got = run.trace.iter().filter(|e| e.kind == "enter").nth(i).map(|e| e.name.clone()).unwrap_or_default();
+      if want != got {
+        shape_ok = false;
+      }
+    }
+    let trace_json: Vec<Value> = run.trace.iter().map(|e| e.to_json()).collect();
+    let after = contents(&index);
+    // ---- monitor + model serial execution (Lean) ----
+    let pre_pairs: Vec<Value> = before.iter().map(|(k, v)| json!([k, v])).collect();
+    let m = drv.call("C05", json!({"op": "serial", "trace": trace_json, "progs": case["threads"], "prefill": pre_pairs}));
+    s.traces_validated += 1;
+    if m["ok"] != json!(true) {
+      s.disagree("driver", case, json!(null), m.clone());
+      return;
+    }
+    if m["disjoint"] != json!(true) || m["fits"] != json!(true) || !shape_ok {
+      let mm = drv.call("C05", json!({"op": "monitor", "trace": trace_json, "progs": case["threads"]}));
+      s.disagree(
+        "monitor.sectionsDisjoint",
+        case,
+        json!({"trace": trace_json, "shape_ok": shape_ok}),
+        json!({"disjoint": m["disjoint"], "fits": m["fits"], "first_break": mm["first_break"], "theorem": "SL.C05.trace_serializable (hypothesis false on this trace)"}),
+      );
+    }
+    let model_order: Vec<(usize, usize)> = m["order"].as_array().map(|a| a.iter().map(|p| (p[0].as_u64().unwrap_or(0) as usize, p[1].as_u64().unwrap_or(0) as usize)).collect()).unwrap_or_default();
+    if model_order != order {
+      s.disagree("enterOrder", case, json!(order), m["order"].clone());
+    }
+    if !mem && m["disjoint"] == json!(true) && m["fits"] == json!(true) {
+      // results per call, contents
+      let mres = m["results"].as_array().cloned().unwrap_or_default();
+      let mut bad = Vec::new();
+      for (i, (t, k)) in order.iter().enumerate() {
+        let imp = results[*t].get(*k).map(canon).unwrap_or(json!(null));
+        if mres.get(i) != Some(&imp) {
+          bad.push(json!({"thread": t, "call": k, "impl": imp, "model": mres.get(i)}));
+        }
+      }
+      let mut mc: Vec<(String, String)> = m["committed"].as_array().map(|a| a.iter().map(|p| (p[0].as_str().unwrap_or("").to_string(), p[1].as_str().unwrap_or("").to_string())).collect()).unwrap_or_default();
+      mc.sort();
+      let ic: Vec<(String, String)> = after.clone().unwrap_or_default().into_iter().collect();
+      if !bad.is_empty() || mc != ic || after.is_err() {
+        s.disagree("serial.model", case, json!({"results": bad, "contents": ic, "contents_err": after.clone().err(), "order": order}), json!({"contents": mc, "results": mres}));
+      }
+    }
+    // ---- finder: implementation vs implementation ----
+    let dir2 = scratch();
+    let serial = (|| -> Result<(Vec<Vec<Value>>, BTreeMap<String, String>), String> {
+      let index2 = idx::create(dir2.path(), &schema_json(), mem)?;
+      prefill(&index2, case)?;
+      let mut ws: Vec<Option<IndexWriter>> = (0..n).map(|_| None).collect();
+      let mut res: Vec<Vec<Value>> = vec![Vec::new(); n];
+      for (t, k) in order.iter() {
+        let c = threads[*t].get(*k).ok_or("order names a call that does not exist")?;
+        let r = exec_call(&index2, &mut ws[*t], c);
+        res[*t].push(r);
+      }
+      drop(ws);
+      let c = contents(&index2)?;
+      Ok((res, c))
+    })();
+    match (&serial, &after) {
+      (Ok((sres, scont)), Ok(cont)) => {
+        let mut bad = Vec::new();
+        for t in 0..n {
+          for k in 0..threads[t].len() {
+            let a = results[t].get(k).map(canon);
+            let b = sres[t].get(k).map(canon);
+            if a != b {
+              bad.push(json!({"thread": t, "call": k, "op": threads[t][k]["op"], "concurrent": a, "serial": b}));
+            }
+          }
+        }
+        if !bad.is_empty() {
+          s.fail("serial.result-mismatch", "a call returned a different result than in the serial execution in enter order", case, json!({"calls": bad, "order": order}));
+        }
+        if scont != cont {
+          s.fail("serial.contents-mismatch", "final contents differ from the serial execution in enter order", case, json!({"concurrent": cont, "serial": scont, "order": order}));
+        }
+      }
+      (Err(e), _) => s.fail("serial.replay-failed", "serial re-execution failed", case, json!(e)),
+      (_, Err(e)) => s.fail("final.reader-failed", "fresh reader after the concurrent run failed", case, json!(e)),
+    }
+    // the index stays openable (filesystem: from disk)
+    if !mem {
+      drop(index);
+      match idx::open(dir.path()).and_then(|i| contents(&i)) {
+        Ok(c) => {
+          if let Ok(cont) = &after {
+            if &c != cont {
+              s.fail("reopen.contents-mismatch", "contents after reopening from disk differ from the in-process contents", case, json!({"reopened": c, "in_process": cont}));
+            }
+          }
+        }
+        Err(e) => s.fail("reopen.failed", "index does not reopen after the concurrent run", case, json!(e)),
+      }
+    }
+  }
+  fn finish(&self, _tier: Tier, s: &mut Summary) {
+    s.exhaustive = false;
+    s.notes.push("not covered: shared state touched outside any section (IndexWriter::drop syncs the log without the lock), memory-model effects; in-memory backend: monitor + implementation-vs-implementation only (its per-handle log positions are not modelled)".into());
+  }
 }
